@@ -16,31 +16,53 @@ import (
 	"github.com/sirupsen/logrus"
 )
 
-// c14Arrows reads "[Name] as _n" and "_n --> _m" lines back into name pairs.
+// c14Arrows reads the arrows of a generated diagram back into (source, target) application
+// pairs: component diagrams ("[Name] as _n", "_n --> _m") and endpoint-analysis diagrams
+// (state "App" as X_k { state "ep" as _n }, "_n -[#colour]> _m"; arrows inside one
+// application are not calls between applications).
 func c14Arrows(puml string) (pairs [][2]string) {
-	names := map[string]string{}
+	owner := map[string]string{}
+	current := ""
 	lines := strings.Split(puml, "\n")
+	alias := func(rest string) string {
+		if j := strings.IndexByte(rest, ' '); j >= 0 {
+			return rest[:j]
+		}
+		return rest
+	}
 	for _, l := range lines {
-		if strings.HasPrefix(l, "[") {
-			if i := strings.Index(l, "] as "); i > 0 {
-				alias := l[i+5:]
-				if j := strings.IndexByte(alias, ' '); j >= 0 {
-					alias = alias[:j]
-				}
-				names[alias] = l[1:i]
+		switch {
+		case strings.HasPrefix(l, "[") && strings.Contains(l, "] as "):
+			i := strings.Index(l, "] as ")
+			owner[alias(l[i+5:])] = l[1:i]
+		case strings.HasPrefix(l, "state \""):
+			rest := l[len("state \""):]
+			if i := strings.Index(rest, "\" as X"); i >= 0 {
+				current = rest[:i]
+			}
+		case strings.HasPrefix(l, "  state \""):
+			rest := l[len("  state \""):]
+			if i := strings.Index(rest, "\" as "); i >= 0 {
+				owner[alias(rest[i+5:])] = current
 			}
 		}
 	}
 	for _, l := range lines {
-		if strings.HasPrefix(l, "_") {
-			if i := strings.Index(l, " --> "); i > 0 {
-				dst := l[i+5:]
-				if j := strings.IndexByte(dst, ' '); j >= 0 {
-					dst = dst[:j]
-				}
-				pairs = append(pairs, [2]string{names[l[:i]], names[dst]})
+		if !strings.HasPrefix(l, "_") {
+			continue
+		}
+		src, dst := "", ""
+		if i := strings.Index(l, " --> "); i > 0 {
+			src, dst = l[:i], alias(l[i+5:])
+		} else if i := strings.Index(l, " -[#"); i > 0 {
+			if j := strings.Index(l, "> "); j > i {
+				src, dst = l[:i], alias(l[j+2:])
 			}
 		}
+		if src == "" || owner[src] == owner[dst] {
+			continue
+		}
+		pairs = append(pairs, [2]string{owner[src], owner[dst]})
 	}
 	return
 }
@@ -63,8 +85,9 @@ func Harness_C14_ProjectViews() {
 	if nd.Thorough() {
 		nviews = 3
 	}
-	// A calls B and C; B calls C
-	calls := []c14Call{{src: 0, sep: 0, dst: 1, dep: 0}, {src: 0, sep: 1, dst: 2, dep: 0}, {src: 1, sep: 0, dst: 2, dep: 1}}
+	// A calls B and C; B calls the same endpoint of C
+	calls := []c14Call{{src: 0, sep: 0, dst: 1, dep: 0}, {src: 0, sep: 1, dst: 2, dep: 0}, {src: 1, sep: 0, dst: 2, dep: 0}}
+	view := nd.IntRange("view", 0, 2) // plain, clustered, endpoint analysis
 	human, hidden := c14NoFlags()
 	m := c14Build(calls, human, hidden)
 	proj := &sysl.Application{Name: &sysl.AppName{Part: []string{"Project"}}, Endpoints: map[string]*sysl.Endpoint{}}
@@ -94,9 +117,15 @@ func Harness_C14_ProjectViews() {
 	var r map[string]string
 	var err error
 	crashed, msg := nd.Recovered(func() {
-		nd.AnyMapOrder(func() {
-			r, err = GenerateIntegrations(&cmdutils.CmdContextParamIntgen{Output: "%(epname).png", Project: "Project"}, m.mod, logrus.New())
-		})
+		run := func() {
+			r, err = GenerateIntegrations(&cmdutils.CmdContextParamIntgen{Output: "%(epname).png", Project: "Project", Clustered: view == 1, EPA: view == 2}, m.mod, logrus.New())
+		}
+		if view == 0 {
+			// every order of the project's endpoint map (and of every other map on the way)
+			nd.AnyMapOrder(run)
+		} else {
+			run()
+		}
 	})
 	nd.Note(msg)
 	nd.Assert("views:no-crash", !crashed && err == nil)
